@@ -167,6 +167,9 @@ class History(object):
                 rep.count('api_calls')
                 if op == 'assert':
                     fb = world.formula(2)
+                    if rng.random() < 0.1 and frames[-1]:
+                        # contradict the level's last assertion
+                        fb = ('not', None, (frames[-1][-1],))
                     self.trace[-1] = ('assert', B.show(fb, 80))
                     f = B.build(fb, env)
                     solver.add_assertion(f)
@@ -209,6 +212,17 @@ class History(object):
                     model_valid = bool(got)
                 elif op in ('is_sat', 'is_valid', 'is_unsat'):
                     fb = world.formula(2)
+                    if rng.random() < 0.3:
+                        # queries that are trivial on their own: the answer
+                        # still depends on the live assertions
+                        p0 = world.bools[0]
+                        fb = rng.choice([
+                            B.Bool(True), B.Bool(False),
+                            ('not', None, (B.Bool(True),)),
+                            ('not', None, (B.Bool(False),)),
+                            ('or', None, (p0, ('not', None, (p0,)))),
+                            ('and', None, (p0, ('not', None, (p0,))))])
+                        rep.count('trivial_shortcut_queries')
                     self.trace[-1] = (op, B.show(fb, 80))
                     f = B.build(fb, env)
                     live = [b for fr in frames for b in fr]
